@@ -15,6 +15,8 @@ package main
 import (
 	"encoding/hex"
 	"fmt"
+	"os"
+	"runtime/pprof"
 	"sort"
 	"strconv"
 	"strings"
@@ -111,6 +113,7 @@ func svalString(v *sval) string {
 var c04Moved, c04Asks int
 
 func runC04(line string) string {
+	loadFactor = measureLoad() // the machine's load may have changed since the process started
 	hd := strings.SplitN(line, " # ", 2)
 	f := strings.Fields(hd[0])
 	n, _ := strconv.Atoi(f[0])
@@ -226,6 +229,9 @@ func runC04(line string) string {
 					before = sp.counter("upstream.slots_refresh.success_total")
 				}
 				if !ok {
+					if os.Getenv("C04_DUMP") != "" {
+						pprof.Lookup("goroutine").WriteTo(os.Stderr, 1)
+					}
 					replies = append(replies, "NO-REFRESH-AFTER-FAILOVER")
 				}
 			}
